@@ -337,38 +337,96 @@ theorem lcaSigOf_hashes (db : LcaDb) (idx name x : Nat) :
   · rintro ⟨l, hm, hi⟩
     exact ⟨(x, l), ⟨hm, by simpa using hi⟩, rfl⟩
 
-theorem mem_signatures (db : LcaDb) (ents : Ents) (inv : LcaInv db ents) (s' : Sig) :
-    s' ∈ db.signatures ↔ ∃ e ∈ ents, (∃ h, Owns db.hashvalToIdx h e.1) ∧ s' = lcaSigOf db e.1 e.2.name := by
-  have hfind : ∀ e ∈ ents,
-      db.identToIdx.find? (fun x => decide (x.2 = e.1)) = some (e.2.name, e.1) ∧
-      db.identToName.find? (fun x => decide (x.1 = e.2.name)) = some (e.2.name, e.2.name) := by
-    intro e he
-    constructor
-    · rw [inv.idx]
-      have := find?_unique (ents.map fun e => (e.2.name, e.1)) (·.2)
-        (by simpa [List.map_map, Function.comp_def] using inv.idxNodup) (e.2.name, e.1)
-        (List.mem_map.2 ⟨e, he, rfl⟩)
-      simpa using this
-    · rw [inv.nm]
-      have := find?_unique (ents.map fun e => (e.2.name, e.2.name)) (·.1)
-        (by simpa [List.map_map, Function.comp_def] using inv.nameNodup) (e.2.name, e.2.name)
-        (List.mem_map.2 ⟨e, he, rfl⟩)
-      simpa using this
-  unfold LcaDb.signatures
-  simp only [List.mem_filterMap, mem_dedup, List.mem_flatMap]
+theorem lca_find (db : LcaDb) (ents : Ents) (inv : LcaInv db ents) : ∀ e ∈ ents,
+    db.identToIdx.find? (fun x => decide (x.2 = e.1)) = some (e.2.name, e.1) ∧
+    db.identToName.find? (fun x => decide (x.1 = e.2.name)) = some (e.2.name, e.2.name) := by
+  intro e he
   constructor
-  · rintro ⟨idx, ⟨p, hp, hi⟩, hm⟩
-    have hown : Owns db.hashvalToIdx p.1 idx := ⟨p.2, hp, hi⟩
-    obtain ⟨e, he, e1, _⟩ := (inv.owns p.1 idx).1 hown
-    subst e1
-    obtain ⟨h1, h2⟩ := hfind e he
+  · rw [inv.idx]
+    have := find?_unique (ents.map fun e => (e.2.name, e.1)) (·.2)
+      (by simpa [List.map_map, Function.comp_def] using inv.idxNodup) (e.2.name, e.1)
+      (List.mem_map.2 ⟨e, he, rfl⟩)
+    simpa using this
+  · rw [inv.nm]
+    have := find?_unique (ents.map fun e => (e.2.name, e.2.name)) (·.1)
+      (by simpa [List.map_map, Function.comp_def] using inv.nameNodup) (e.2.name, e.2.name)
+      (List.mem_map.2 ⟨e, he, rfl⟩)
+    simpa using this
+
+theorem lca_idxs_mem (ye : Bool) (db : LcaDb) (ents : Ents) (inv : LcaInv db ents) (idx : Nat) :
+    idx ∈ db.hashvalToIdx.flatMap (·.2) ++ (if ye then db.identToIdx.map (·.2) else []) ↔
+      ∃ e ∈ ents, e.1 = idx ∧ ((∃ h, Owns db.hashvalToIdx h e.1) ∨ ye = true) := by
+  simp only [List.mem_append, List.mem_flatMap]
+  constructor
+  · rintro (⟨p, hp, hi⟩ | hy)
+    · have hown : Owns db.hashvalToIdx p.1 idx := ⟨p.2, hp, hi⟩
+      obtain ⟨e, he, e1, _⟩ := (inv.owns p.1 idx).1 hown
+      subst e1
+      exact ⟨e, he, rfl, Or.inl ⟨p.1, hown⟩⟩
+    · cases ye with
+      | false => simp at hy
+      | true =>
+        simp only [if_true, inv.idx, List.map_map, List.mem_map, Function.comp] at hy
+        obtain ⟨e, he, e1⟩ := hy
+        exact ⟨e, he, e1, Or.inr rfl⟩
+  · rintro ⟨e, he, rfl, (⟨h, l, hm, hi⟩ | hy)⟩
+    · exact Or.inl ⟨(h, l), hm, hi⟩
+    · right
+      subst hy
+      simp only [if_true, inv.idx, List.map_map, List.mem_map, Function.comp]
+      exact ⟨e, he, rfl⟩
+
+theorem mem_signatures (ye : Bool) (db : LcaDb) (ents : Ents) (inv : LcaInv db ents) (s' : Sig) :
+    s' ∈ db.signatures ye ↔
+      ∃ e ∈ ents, ((∃ h, Owns db.hashvalToIdx h e.1) ∨ ye = true) ∧ s' = lcaSigOf db e.1 e.2.name := by
+  unfold LcaDb.signatures
+  simp only [List.mem_filterMap, mem_dedup]
+  constructor
+  · rintro ⟨idx, hin, hm⟩
+    obtain ⟨e, he, rfl, hcond⟩ := (lca_idxs_mem ye db ents inv idx).1 hin
+    obtain ⟨h1, h2⟩ := lca_find db ents inv e he
     simp only [h1, h2] at hm
     injection hm with hm
-    exact ⟨e, he, ⟨p.1, hown⟩, by rw [← hm]; rfl⟩
-  · rintro ⟨e, he, ⟨h, l, hm, hi⟩, rfl⟩
-    refine ⟨e.1, ⟨(h, l), hm, hi⟩, ?_⟩
-    obtain ⟨h1, h2⟩ := hfind e he
+    exact ⟨e, he, hcond, by rw [← hm]; rfl⟩
+  · rintro ⟨e, he, hcond, rfl⟩
+    refine ⟨e.1, (lca_idxs_mem ye db ents inv e.1).2 ⟨e, he, rfl, hcond⟩, ?_⟩
+    obtain ⟨h1, h2⟩ := lca_find db ents inv e he
     simp only [h1, h2]
     rfl
+
+theorem nodup_dedup {α : Type} [DecidableEq α] (l : List α) : (dedup l).Nodup := by
+  induction l with
+  | nil => simp [dedup]
+  | cons x t ih =>
+    simp only [dedup, List.nodup_cons, List.mem_filter]
+    refine ⟨by simp, ?_⟩
+    exact List.Pairwise.filter _ ih
+
+theorem filterMap_eq_map_of {α β : Type} (l : List α) (F : α → Option β) (H : α → β)
+    (h : ∀ a ∈ l, F a = some (H a)) : l.filterMap F = l.map H := by
+  induction l with
+  | nil => rfl
+  | cons a t ih =>
+    simp only [List.filterMap_cons, h a (by simp), List.map_cons]
+    rw [ih (fun b hb => h b (by simp [hb]))]
+
+/-- with the repaired `_signatures` every accepted insert is returned exactly once -/
+theorem signatures_perm (db : LcaDb) (ents : Ents) (inv : LcaInv db ents) :
+    (db.signatures true).Perm (ents.map fun e => lcaSigOf db e.1 e.2.name) := by
+  have hperm : (dedup (db.hashvalToIdx.flatMap (·.2) ++ (if true then db.identToIdx.map (·.2) else []))).Perm
+      (ents.map (·.1)) := by
+    rw [List.perm_ext_iff_of_nodup (nodup_dedup _) inv.idxNodup]
+    intro idx
+    rw [mem_dedup, lca_idxs_mem true db ents inv idx]
+    simp only [or_true, and_true, List.mem_map]
+  unfold LcaDb.signatures
+  refine (List.Perm.filterMap _ hperm).trans ?_
+  rw [List.filterMap_map]
+  apply List.Perm.of_eq
+  apply filterMap_eq_map_of
+  intro e he
+  obtain ⟨h1, h2⟩ := lca_find db ents inv e he
+  simp only [Function.comp, h1, h2]
+  rfl
 
 end Sm.Storage
